@@ -96,7 +96,21 @@ def run(ctx, ck) -> None:
             ok_os = True
     ck.expect('X2', ok_os, init, 'without an explicit output structure the stored one is the abstract evaluation of mv', 'when out_structure is None the stored output structure is not the abstract evaluation of mv', instance='default output structure')
     raises = [p for p in function_paths(init) if p.exit == 'raise' and exception_name(p.node) == 'ValueError']
-    mask_guard = any('out_structure is None' in ' '.join(ast.unparse(ev[1]) for ev in p.events if ev[0] == 'cond') and 'bool' in ' '.join(ast.unparse(ev[1]) for ev in p.events if ev[0] == 'cond') for p in raises)
+    from ..terms import ELEM, prop_equiv, quantified, raise_paths
+
+    IDXV = ('var', init.args.args[1].arg)
+    mask_p = ('and', ('call', ('var', 'isinstance'), (ELEM, ('var', 'Array')), ()), ('cmp', 'eq', ('attr', ELEM, 'dtype'), ('var', 'bool')))
+    mask_guard = False
+    for fs, _e, _p in raise_paths(init, 'ValueError'):
+        none_os = any(f[0] == 'is' and ('var', 'out_structure') in f[1] and ('const', 'None') in f[1] for f in fs)
+        some_mask = False
+        for f in fs:
+            if f[0] == 'truth' and f[2] is True:
+                for base in (IDXV, ('tuple', IDXV)):
+                    q = quantified(f[1], base)
+                    if q and q[0] == 'any' and prop_equiv(q[1], mask_p):
+                        some_mask = True
+        mask_guard = mask_guard or (none_os and some_mask)
     ck.expect('X2', mask_guard, init, 'a boolean mask without explicit output structure is refused (its output shape is data dependent)', 'a boolean-mask index without output structure is no longer refused at construction', instance='mask needs structure')
     chk = index.own.get('_check_indices')
     ell = False
@@ -117,16 +131,11 @@ def run(ctx, ck) -> None:
             continue
         env = path_env(p)
         val = env.get('unique_indices')
-        conds = [(term(ev[1]), ev[2]) for ev in p.events if ev[0] == 'cond']
-        all_guard = [c for c in conds if c[0][0] == 'call' and c[0][1] == ('var', 'all')]
         if val == ('const', 'True'):
             found_true += 1
-            g = all_guard[0] if all_guard else None
-            txt = show(g[0]) if g else ''
-            need = all(k in txt for k in ('int', 'slice', 'EllipsisType', 'bool'))
-            if not (g is not None and g[1] is True and need):
+            if _kind_fact(path_facts(p), init) is not True:
                 ok_u = False
-                why = f'unique_indices is forced to True under {txt or "no guard"}'
+                why = 'unique_indices is forced to True on a path where "every entry is an int, a slice, an ellipsis or a boolean mask" is not known to hold'
         stored = None
         for st in p.stmts():
             if isinstance(st, ast.Assign) and any(isinstance(tg, ast.Attribute) and tg.attr == 'unique_indices' for tg in st.targets):
@@ -188,6 +197,26 @@ def run(ctx, ck) -> None:
         ck.expect('X6', good, kind.node, f'fields {fields} are the lower-cased letters of stokes, in order', f'{kind.name}: fields {fields} vs stokes {ast.unparse(letters) if letters is not None else "?"}', instance=f'{kind.name} fields', nontrivial=False)
 
 
+def _kind_fact(fs, init: ast.FunctionDef):
+    """True / False when the facts of a path decide "every entry of indices is an int, a slice, an ellipsis or a boolean
+    array" (however the test is spelled: the all(...) is lifted to a predicate on a generic entry and compared
+    propositionally with the reference predicate), None when they do not."""
+    from ..terms import ELEM, prop_equiv, quantified
+
+    IDX = ('var', init.args.args[1].arg)
+    static = ('call', ('var', 'isinstance'), (ELEM, ('tuple', ('var', 'int'), ('var', 'slice'), ('var', 'EllipsisType'))), ())
+    mask = ('and', ('call', ('var', 'isinstance'), (ELEM, ('var', 'Array')), ()), ('cmp', 'eq', ('attr', ELEM, 'dtype'), ('var', 'bool')))
+    want = ('or', static, mask)
+    for f in fs:
+        if f[0] != 'truth':
+            continue
+        for base in (IDX, ('tuple', IDX)):
+            q = quantified(f[1], base)
+            if q and q[0] == 'all' and prop_equiv(q[1], want):
+                return f[2]
+    return None
+
+
 def flag_kind_invariant(ck, table, rule: str) -> None:
     """IndexOperator.__init__: a flag that may be false is stored only when some entry is an integer array.
 
@@ -212,9 +241,9 @@ def flag_kind_invariant(ck, table, rule: str) -> None:
         if stored is None or stored == ('const', 'True'):
             continue
         n += 1
-        conds = [(term(ev[1]), ev[2]) for ev in p.events if ev[0] == 'cond']
-        kinds = [c for c in conds if c[0][0] == 'call' and c[0][1] == ('var', 'all') and 'isinstance' in show(c[0])]
-        if not any(pol is False for _, pol in kinds):
+        from ..terms import facts as _pf
+
+        if _kind_fact(_pf(p), init) is not False:
             bad = f'a path stores {show(stored)} without having established that some entry is neither an int, a slice, an ellipsis nor a boolean mask'
     ck.expect(rule, not bad and n >= 1, init, f'on the {n} paths that store a possibly false flag, the kind test over the entries is known to have failed: a false flag implies an integer-array entry',
               f'the uniqueness flag can be false for int/slice/boolean-mask entries ({bad}); TransposeIndexRule takes a false flag as licence to pass the entry to jnp.unique',
